@@ -1,8 +1,16 @@
 pub mod common;
 pub mod captured;
 pub mod c01;
+pub mod c04;
+pub mod c06;
+pub mod c07;
 pub mod c08;
 pub mod c10;
+pub mod c12;
+pub mod c13;
+pub mod c15;
+pub mod c19;
+pub mod c20;
 
 use crate::engine::Family;
 
@@ -11,6 +19,9 @@ pub fn families_of(property: &str) -> Option<Vec<Box<dyn Family>>> {
         "C01" => c01::families(),
         "C02" => captured::families(captured::Focus::C02),
         "C03" => captured::families(captured::Focus::C03),
+        "C04" => c04::families(),
+        "C06" => c06::families(),
+        "C07" => c07::families(),
         "C08" => c08::families(),
         "C09" => {
             let mut v = captured::families(captured::Focus::C09);
@@ -19,6 +30,11 @@ pub fn families_of(property: &str) -> Option<Vec<Box<dyn Family>>> {
         }
         "C10" => c10::families(c10::Focus::C10),
         "C11" => captured::families(captured::Focus::C11),
+        "C12" => c12::families(),
+        "C13" => c13::families(),
+        "C15" => c15::families(),
+        "C19" => c19::families(),
+        "C20" => c20::families(),
         _ => return None,
     })
 }
